@@ -2,7 +2,7 @@
 """tools/seedrecheck.py [name…] — re-run the quick check of every kept seeded change against a
 fresh clone of /repo carrying its patch (VERIF_REPO), and rewrite seeded/RESULTS.md."""
 import json, os, re, shutil, subprocess, sys
-root = "/verif"
+root = os.path.dirname(os.path.dirname(os.path.abspath(__file__)))  # the /verif tree this script lives in (a `vp run` snapshot works too)
 names = sys.argv[1:] or sorted(d for d in os.listdir(f"{root}/seeded") if os.path.isdir(f"{root}/seeded/{d}"))
 rows = []
 for name in names:
